@@ -498,7 +498,9 @@ fn call_spec_strategy() -> impl Strategy<Value = CallSpec> {
         prop_oneof![12 => Just(0u8), 4 => Just(1u8), 4 => Just(2u8), 1 => Just(3u8), 1 => Just(4u8), 1 => Just(5u8)],
         any::<bool>(),
         prop_oneof![4 => 0u16..8, 1 => 180u16..300, 1 => 0u16..700],
-        prop_oneof![5 => Just(0u16), 2 => 0u16..40, 1 => 150u16..300, 1 => 0u16..700],
+        // one call in twenty is large (6..40 KB), so that some chains exceed any plausible internal
+        // chunk size: the whole chain must still reach the transport in one write
+        prop_oneof![10 => Just(0u16), 4 => 0u16..40, 2 => 150u16..300, 2 => 0u16..700, 1 => 6000u16..40000],
         prop::bool::weighted(0.15),
     )
         .prop_map(|(kind, k, err, explicit_false, pad, call_pad, bare)| CallSpec { kind, k, err, explicit_false, pad, call_pad, bare })
